@@ -14,3 +14,5 @@ func verifJobBegin() {}
 func verifJobEnd() {}
 
 func verifCommitted(s *session, r *sessionRecord, nv *version, trivial bool) {}
+
+func verifNoteMinSeq(s *session, minSeq uint64, level int) {}
